@@ -29,9 +29,67 @@ type C10Case struct {
 	Pre      []model.Ev `json:"pre,omitempty"` // scalar siblings before the event
 	Sib      []model.Ev `json:"sib,omitempty"` // scalar siblings after the event
 	Opts     EncOpts    `json:"opts"`
+	// TVar selects the typed target of the "unfold_typed" consumer (c10Target)
+	TVar int `json:"tvar,omitempty"`
 }
 
-var c10Consumers = []string{"json", "cborl", "ubjson", "unfold", "wrapped"}
+var c10Consumers = []string{"json", "cborl", "ubjson", "unfold", "wrapped", "unfold_typed"}
+
+// c10Target is the typed target the "unfold_typed" consumer unfolds into: an
+// element type chosen by the kind of the event under test and TVar — plain,
+// through pointers, through user unfolders, named, interface{} — as the whole
+// target (top) or as field X of a struct whose other members are unknown
+// (object position: the siblings are skipped).
+func c10Target(c *C10Case) gomodel.TypeDesc {
+	td := func(k string) gomodel.TypeDesc { return gomodel.TypeDesc{Kind: k} }
+	ptr := func(e gomodel.TypeDesc) gomodel.TypeDesc { return gomodel.TypeDesc{Kind: "ptr", Elem: &e} }
+	sl := func(e gomodel.TypeDesc) gomodel.TypeDesc { return gomodel.TypeDesc{Kind: "slice", Elem: &e} }
+	mp := func(e gomodel.TypeDesc) gomodel.TypeDesc { return gomodel.TypeDesc{Kind: "map", Elem: &e} }
+	pool := func(n string) gomodel.TypeDesc { return gomodel.TypeDesc{Kind: "pool", Pool: n} }
+	var variants []gomodel.TypeDesc
+	strElems := []gomodel.TypeDesc{td("string"), ptr(td("string")), ptr(ptr(td("string"))), pool("UStr"), pool("UPString"), pool("NStr"), td("iface")}
+	numElems := []gomodel.TypeDesc{td("int64"), td("float64"), ptr(td("int32")), td("iface"), td("uint8"), pool("NInt"), pool("UPInt16"), ptr(pool("UNum")), td("uint64"), td("float32")}
+	boolElems := []gomodel.TypeDesc{td("bool"), ptr(td("bool")), pool("UPBool"), td("iface")}
+	elemsFor := func(kind string) []gomodel.TypeDesc {
+		switch kind {
+		case model.KStr, model.KStrRef:
+			return strElems
+		case model.KBool:
+			return boolElems
+		case "":
+			return []gomodel.TypeDesc{td("iface")}
+		}
+		return numElems
+	}
+	switch {
+	case c.Ev.K == model.KStrRef:
+		variants = strElems
+		for _, e := range strElems[:5] {
+			variants = append(variants, sl(e), mp(e))
+		}
+	case c.Ev.K == model.KKeyRef:
+		// the event is the key of member 7: every kind of map
+		return []gomodel.TypeDesc{mp(td("int8")), mp(ptr(td("int"))), mp(td("iface")), mp(pool("UNum")), td("iface"),
+			mp(gomodel.TypeDesc{Kind: "slice", Elem: &gomodel.TypeDesc{Kind: "int"}})}[c.TVar%6]
+	case c.Ev.K == model.KBytes:
+		variants = []gomodel.TypeDesc{sl(td("uint8")), sl(td("int")), td("iface"), sl(td("iface")), sl(ptr(td("uint8"))), pool("NBytes")}
+	case c.Ev.IsExtObj():
+		for _, e := range elemsFor(c.Ev.K[2:]) {
+			variants = append(variants, mp(e))
+		}
+		variants = append(variants, td("iface"))
+	default: // typed array
+		for _, e := range elemsFor(c.Ev.K[2:]) {
+			variants = append(variants, sl(e))
+		}
+		variants = append(variants, td("iface"))
+	}
+	e := variants[c.TVar%len(variants)]
+	if c.Pos == "top" {
+		return e
+	}
+	return gomodel.TypeDesc{Kind: "struct", Fields: []gomodel.FieldDesc{{Name: "A", Type: td("int")}, {Name: "X", Type: e}, {Name: "Z", Type: td("string")}}}
+}
 
 func basicOf(e model.Ev) []model.Ev {
 	switch e.K {
@@ -225,6 +283,50 @@ func checkC10(ci any, info *CaseInfo) string {
 		if ta != nil && tb != nil && !sameGoTypes(reflect.ValueOf(ta), reflect.ValueOf(tb), 0) {
 			return fmt.Sprintf("%s: the extended call yields Go type %T, its expansion %T", desc, ta, tb)
 		}
+	case "unfold_typed":
+		if c.Pos == "array" {
+			return "harness: unfold_typed has no array position"
+		}
+		ttd := c10Target(c)
+		typ, err := gomodel.Build(&ttd)
+		if err != nil {
+			return "harness: " + err.Error()
+		}
+		info.Class("typed_target")
+		run := func(evs []model.Ev) (reflect.Value, Outcome, string) {
+			target := reflect.New(typ)
+			u, err := newUnfolder(target.Interface())
+			if err != nil {
+				return target, Outcome{Err: err}, ""
+			}
+			o := guard(func() error { return scribbleApply(evs, ensureExt(u)) })
+			idle := ""
+			if !o.Panicked() && o.Err == nil {
+				if d := u.VerifDepths(); d != [7]int{} {
+					idle = fmt.Sprintf("unfolder stacks not idle: %v", d)
+				}
+			}
+			return target, o, idle
+		}
+		ta, oa, ia := run(sa)
+		tb, ob, ib := run(sb)
+		tdesc := fmt.Sprintf("%s, target %s", desc, &ttd)
+		if oa.Panicked() || ob.Panicked() {
+			return fmt.Sprintf("%s: panic: extended %v / expanded %v", tdesc, oa, ob)
+		}
+		if (oa.Err == nil) != (ob.Err == nil) {
+			return fmt.Sprintf("%s: the extended call ends with %v, its expansion with %v", tdesc, oa, ob)
+		}
+		if oa.Err != nil {
+			info.Class("typed_target_refuses_both")
+			return ""
+		}
+		if ia != "" || ib != "" {
+			return fmt.Sprintf("%s: after the complete document: extended: %q expanded: %q", tdesc, ia, ib)
+		}
+		if d := gomodel.GoEqual(tb.Elem(), ta.Elem(), true); d != "" {
+			return fmt.Sprintf("%s: unfolding the extended call and its expansion gives different values: %s\n  extended %+v\n  expanded %+v", tdesc, d, safeInterface(ta.Elem()), safeInterface(tb.Elem()))
+		}
 	case "wrapped":
 		run := func(evs []model.Ev) ([]model.Ev, Outcome) {
 			rec := &model.Recorder{}
@@ -387,13 +489,22 @@ func enumC10(emit func(c any) bool) {
 						if pos == "top" && ann {
 							continue
 						}
-						c := &C10Case{Consumer: consumer, Pos: pos, Announce: ann, Ev: ev, Opts: EncOpts{IgnoreInvalidFloat: true}}
-						if withSib {
-							c.Sib = sib
-							c.Pre = []model.Ev{{K: model.KBool, B: true}}
+						variants := 1
+						if consumer == "unfold_typed" {
+							if pos == "array" || big {
+								continue
+							}
+							variants = 19 // at least every variant of c10Target
 						}
-						if !emit(c) {
-							return
+						for tv := 0; tv < variants; tv++ {
+							c := &C10Case{Consumer: consumer, Pos: pos, Announce: ann, Ev: ev, Opts: EncOpts{IgnoreInvalidFloat: true}, TVar: tv}
+							if withSib {
+								c.Sib = sib
+								c.Pre = []model.Ev{{K: model.KBool, B: true}}
+							}
+							if !emit(c) {
+								return
+							}
 						}
 					}
 				}
@@ -419,6 +530,12 @@ func drawC10(t *rapid.T) any {
 	if c.Ev.K == model.KKeyRef {
 		c.Pos = "object"
 	}
+	if c.Consumer == "unfold_typed" {
+		c.TVar = rapid.IntRange(0, 40).Draw(t, "tvar")
+		if c.Pos == "array" {
+			c.Pos = "object"
+		}
+	}
 	if c.Pos != "top" {
 		c.Announce = rapid.Bool().Draw(t, "announce")
 		scalars := func(label string) []model.Ev {
@@ -439,7 +556,7 @@ func drawC10(t *rapid.T) any {
 func init() {
 	register(&Property{
 		ID:    "C10",
-		Rule:  "deterministic matrix: all 15 typed array events, OnBytes, all 14 typed map events, OnStringRef, OnKeyRef x sizes {0,1,3 with boundary values forcing every UBJSON element marker up to $H} x position {top, array element, object member} x {no sibling, siblings before and after} x {unknown, announced parent length} x consumers {json, cborl, ubjson encoders, Unfolder into interface{}, EnsureExtVisitor(plain visitor)}; rapid adds arbitrary contents/siblings/options; oracle = output of the extended call and of its expansion both decode (reference decoder) to the stream's value, consumer stacks (hooks) idle afterwards, unfolded values and Go types equal, wrapped visitor records the expansion; non-trivial = the event is nested or followed by further events; distinct by case hash",
+		Rule:  "deterministic matrix: all 15 typed array events, OnBytes, all 14 typed map events, OnStringRef, OnKeyRef x sizes {0,1,3 with boundary values forcing every UBJSON element marker up to $H} x position {top, array element, object member} x {no sibling, siblings before and after} x {unknown, announced parent length} x consumers {json, cborl, ubjson encoders, Unfolder into interface{}, Unfolder into typed targets chosen by the event kind (plain, through pointers, through user unfolders, named types, interface{}; as whole target or as a struct field next to unknown members), EnsureExtVisitor(plain visitor)}; rapid adds arbitrary contents/siblings/options; oracle = output of the extended call and of its expansion both decode (reference decoder) to the stream's value, consumer stacks (hooks) idle afterwards, unfolded values and Go types equal, wrapped visitor records the expansion; non-trivial = the event is nested or followed by further events; distinct by case hash",
 		New:   func() any { return &C10Case{} },
 		Draw:  drawC10,
 		Check: checkC10,
